@@ -12,6 +12,20 @@ from concurrent.futures import ThreadPoolExecutor
 
 
 def _first_repo_frame(text):
+    # Miri: the location follows the first "error:" line as "--> path:line:col"
+    i = text.find("error: Undefined Behavior")
+    if i < 0:
+        i = text.find("error:")
+    if i >= 0:
+        m = re.search(r"-->\s+(\S+?):(\d+):\d+", text[i:])
+        if m:
+            path = m.group(1)
+            for marker in ("/registry/src/", "/src/"):
+                k = path.rfind(marker)
+                if k >= 0:
+                    path = path[k + (len(marker) if marker == "/registry/src/" else 1):]
+                    break
+            return "%s:%s" % (path, m.group(2))
     # first frame inside the crate under test or heapless/biquad/midi: dedupe key for sanitizer reports
     for pat in (r"(/repo/src/[\w_]+\.rs:\d+)", r"((?:heapless|biquad|midi-convert|midi-types)-[\d.]+/src/[\w_/]+\.rs:\d+)", r"(src/[\w_]+\.rs:\d+:\d+)"):
         m = re.search(pat, text)
